@@ -43,7 +43,9 @@ TIERS = {
                      props=dict(MaxOps=3, MaxCrashes=1, Ops="OpsQuick"), props2=dict(MaxOps=3, MaxCrashes=2, Ops="OpsQuick"),
                      budget=1200, sem_dedupe=False, text_len=3, text_budget=300, extra_workloads=40,
                      legacy=dict(MaxOps=3, MaxCrashes=1, Ops="OpsQuick"),
-                     two=dict(MaxOps=3, MaxCrashes=1, Ops="OpsTwo"), two_props=dict(MaxOps=2, MaxCrashes=1, Ops="OpsTwo"), conc=60),
+                     # two processes: 2 operations / 1 crash = 160 k states (3 operations = 3.3 M states hold as well, checked once
+                     # during the build: too slow for a shared machine)
+                     two=dict(MaxOps=2, MaxCrashes=1, Ops="OpsTwo"), two_props=dict(MaxOps=2, MaxCrashes=1, Ops="OpsTwo"), conc=60),
 }
 # invariants of ModelDB.tla the code as it is now satisfies (asserted: a violation is a machinery error = the spec is wrong)
 HOLDING = ["TypeOK", "PendingGuards", "DatainfoLast", "IndexImpliesComplete", "LocksScoped", "LogHeaderOK",
@@ -117,13 +119,13 @@ def _bg(fn, *args):
 
 
 def _run_design(cfg, workers):
-    res = core.run_tlc(SPEC / "ModelDB.tla", cfg, workers=workers, timeout=3000)
+    res = core.run_tlc(SPEC / "ModelDB.tla", cfg, workers=workers, timeout=6000)
     res.out = res.out[-4000:]
     return res
 
 
 def _run_emit(cfg):
-    res = core.run_tlc(SPEC / "ModelDB.tla", cfg, workers=4, timeout=3000, coverage=False)
+    res = core.run_tlc(SPEC / "ModelDB.tla", cfg, workers=4, timeout=6000, coverage=False)
     res.out = res.out[-4000:]
     return res
 
@@ -136,11 +138,11 @@ def _run_text(cfg):
 
 def _run_prop(cfg, dump, workers, cfg2=None):
     """one property-layer invariant over the design; if it holds in the first bound, try the larger one (cfg2)"""
-    res = core.run_tlc(SPEC / "ModelDB.tla", cfg, workers=workers, timeout=3000, coverage=False,
+    res = core.run_tlc(SPEC / "ModelDB.tla", cfg, workers=workers, timeout=6000, coverage=False,
                        extra=["-dumpTrace", "json", str(dump)])
     if cfg2 is not None and res.error is None and not res.violated:
         first = res
-        res = core.run_tlc(SPEC / "ModelDB.tla", cfg2, workers=workers, timeout=3000, coverage=False,
+        res = core.run_tlc(SPEC / "ModelDB.tla", cfg2, workers=workers, timeout=6000, coverage=False,
                            extra=["-dumpTrace", "json", str(dump)])
         res.distinct += first.distinct
         res.generated += first.generated
@@ -655,7 +657,7 @@ def _validate(traces, v: core.Verdict):
     d = core.scratch("c16tr")
     f = d / "traces.json"
     f.write_text(json.dumps([{"events": t["events"]} for t in traces]))
-    res = core.run_tlc(SPEC / "ModelDBTrace.tla", SPEC / "ModelDBTrace.cfg", workers=1, timeout=3000, env={"TRACES": str(f)}, coverage=False)
+    res = core.run_tlc(SPEC / "ModelDBTrace.tla", SPEC / "ModelDBTrace.cfg", workers=1, timeout=6000, env={"TRACES": str(f)}, coverage=False)
     shutil.rmtree(d, ignore_errors=True)
     core.require_ok(res, "ModelDBTrace.tla")
     if res.violated:
